@@ -23,6 +23,30 @@ type panicSite struct {
 	Desc string // position independent description of the expression
 }
 
+// shape: kind + static type of the indexed/sliced value + the index as a constant or "var":
+// what remains of a reviewed access when the code around it is reorganised.
+func (s panicSite) shape() string {
+	tstr := func(v ssa.Value) string { return types.TypeString(v.Type(), func(p *types.Package) string { return p.Name() }) }
+	idx := func(v ssa.Value) string {
+		if v == nil {
+			return ""
+		}
+		if c, ok := constInt(v); ok {
+			return fmt.Sprint(c)
+		}
+		return "var"
+	}
+	switch x := s.In.(type) {
+	case *ssa.IndexAddr:
+		return "index:" + tstr(x.X) + "[" + idx(x.Index) + "]"
+	case *ssa.Index:
+		return "index:" + tstr(x.X) + "[" + idx(x.Index) + "]"
+	case *ssa.Slice:
+		return "slice:" + tstr(x.X) + "[" + idx(x.Low) + ":" + idx(x.High) + "]"
+	}
+	return ""
+}
+
 func (s panicSite) key() string { return s.Fn.String() + ":" + s.Kind + ":" + s.Desc }
 
 // reachableFrom returns the functions reachable from roots through the call
@@ -691,6 +715,14 @@ func panicFree(p *Prog, r *Report, rule string, roots []*ssa.Function, scope fun
 				r.ok(rule, k2, p.Pos(s.In.Pos()), "reviewed (site now in "+s.Fn.Name()+"): "+reason)
 				continue
 			}
+			// or the same kind of access on a value of the same type in the same package (the
+			// expression itself was rewritten: a helper's result instead of a local, ...)
+			if k2, reason := matchSiteShape(short, s.shape(), usedAllow); k2 != "" {
+				nallowed++
+				usedAllow[k2]++
+				r.ok(rule, k2, p.Pos(s.In.Pos()), "reviewed (site now in "+s.Fn.Name()+"): "+reason)
+				continue
+			}
 			var path []string
 			for _, f := range reach[fn] {
 				path = append(path, f.Name())
@@ -808,4 +840,27 @@ func sameIntValue(a, b ssa.Value) bool {
 		}
 	}
 	return strip(a) == strip(b)
+}
+
+// reviewed entries that may also be recognised by the shape of the access (package + kind +
+// type of the indexed value + index), for code that was reorganised around them
+var panicAllowShape = map[string]string{
+	"astra|index:[]*x509.Certificate[0]":   "astra.copyTLSConfig$1:index:make([]*x509.Certificate)[0]",
+	"astra|slice:[]*x509.Certificate[1:]":  "astra.copyTLSConfig$1:slice:make([]*x509.Certificate)[1:]",
+	"proxycore|index:[]*ClientConn[var]":   "proxycore.connectPool$1:index:*<*[]*proxycore.ClientConn>[idx]",
+	"proxycore|index:[]error[var]":         "proxycore.connectPool$1:index:*errs[idx]",
+	"proxycore|index:[]*proxycore.ClientConn[var]": "proxycore.connectPool$1:index:*<*[]*proxycore.ClientConn>[idx]",
+}
+
+func matchSiteShape(short, shape string, used map[string]int) (string, string) {
+	if shape == "" {
+		return "", ""
+	}
+	pkg, _ := splitSiteKey(short)
+	if k, ok := panicAllowShape[pkg+"|"+shape]; ok && used[k] == 0 {
+		if reason, ok := panicAllow[k]; ok {
+			return k, reason
+		}
+	}
+	return "", ""
 }
